@@ -300,6 +300,11 @@ func c05Packers(p *Prog, r *Report) {
 					if sel, ok := ast.Unparen(e).(*ast.SelectorExpr); ok && sel.Sel.Name == "maxPacketSize" {
 						return true
 					}
+					if c, ok := ast.Unparen(e).(*ast.CallExpr); ok {
+						if fn := Callee(info, c); fn != nil && fn.Name() == "MaxPacketSizeForAddr" {
+							return true
+						}
+					}
 					if o := objOf(info, e); o != nil {
 						if rhs, _, _, ok := fc.SoleDefRHS(o); ok {
 							if c, ok := ast.Unparen(rhs).(*ast.CallExpr); ok {
@@ -991,44 +996,60 @@ func c05DeclaredHeadrooms(p *Prog, r *Report) {
 					continue
 				}
 				// codec types created in the maker: static types of composite literals and call results
-				minfo := maker.Info()
 				seen := map[string]bool{}
-				ast.Inspect(maker.Body, func(x ast.Node) bool {
-					e, ok := x.(ast.Expr)
-					if !ok {
+				// the maker and the unexported helpers of the package it builds the session through
+				makers := []*FuncCtx{maker}
+				inList := map[*FuncCtx]bool{maker: true}
+				for i := 0; i < len(makers) && i < 8; i++ {
+					for _, cs := range makers[i].AllCalls() {
+						if cs.Fn == nil || cs.Fn.Exported() || cs.Fn.Pkg() == nil || cs.Fn.Pkg() != pkg.Types {
+							continue
+						}
+						if h := p.CtxOfObj(cs.Fn.Origin()); h != nil && h.Body != nil && !inList[h] {
+							inList[h] = true
+							makers = append(makers, h)
+						}
+					}
+				}
+				for _, maker := range makers {
+					minfo := maker.Info()
+					ast.Inspect(maker.Body, func(x ast.Node) bool {
+						e, ok := x.(ast.Expr)
+						if !ok {
+							return true
+						}
+						switch e.(type) {
+						case *ast.CompositeLit, *ast.CallExpr:
+						default:
+							return true
+						}
+						t := minfo.TypeOf(e)
+						if t == nil {
+							return true
+						}
+						if pt, ok := t.Underlying().(*types.Pointer); ok {
+							t = pt.Elem()
+						}
+						tn := namedTypeName(t)
+						if tn == "" || seen[tn] || namedTypePkg(t) != mp(rel) {
+							return true
+						}
+						val, cfc := codecDecl(t, side.codecInfo)
+						if val == nil {
+							return true
+						}
+						seen[tn] = true
+						do, co := objOf(info.Info(), declared), objOf(cfc.Info(), val)
+						if do == nil || co == nil || do.Parent() != do.Pkg().Scope() || co.Parent() != co.Pkg().Scope() {
+							return true // not both named package-level headrooms: decided by value elsewhere (R1), not here
+						}
+						n++
+						r.Check(do == co, rule, fmt.Sprintf("%s.%s:%s-is-%s's", rel, owner, side.field, tn), p.posStr(declared.Pos()),
+							"declares "+do.Name()+", the headroom of the "+tn+" it hands out",
+							owner+".Info() declares "+side.field+" "+do.Name()+" but the "+tn+" it hands out needs "+co.Name()+": relays size the packet buffer from the declaration, so the other side's packer is given too little room (negative packet start) or the formula wastes/misplaces it")
 						return true
-					}
-					switch e.(type) {
-					case *ast.CompositeLit, *ast.CallExpr:
-					default:
-						return true
-					}
-					t := minfo.TypeOf(e)
-					if t == nil {
-						return true
-					}
-					if pt, ok := t.Underlying().(*types.Pointer); ok {
-						t = pt.Elem()
-					}
-					tn := namedTypeName(t)
-					if tn == "" || seen[tn] || namedTypePkg(t) != mp(rel) {
-						return true
-					}
-					val, cfc := codecDecl(t, side.codecInfo)
-					if val == nil {
-						return true
-					}
-					seen[tn] = true
-					do, co := objOf(info.Info(), declared), objOf(cfc.Info(), val)
-					if do == nil || co == nil || do.Parent() != do.Pkg().Scope() || co.Parent() != co.Pkg().Scope() {
-						return true // not both named package-level headrooms: decided by value elsewhere (R1), not here
-					}
-					n++
-					r.Check(do == co, rule, fmt.Sprintf("%s.%s:%s-is-%s's", rel, owner, side.field, tn), p.posStr(declared.Pos()),
-						"declares "+do.Name()+", the headroom of the "+tn+" it hands out",
-						owner+".Info() declares "+side.field+" "+do.Name()+" but the "+tn+" it hands out needs "+co.Name()+": relays size the packet buffer from the declaration, so the other side's packer is given too little room (negative packet start) or the formula wastes/misplaces it")
-					return true
-				})
+					})
+				}
 			}
 		})
 	}
